@@ -375,6 +375,11 @@ fn map_unmap(addr: usize, len: usize) {
 // ---- process role ---------------------------------------------------------------------------------
 pub static mut ROLE_CHILD: bool = false;
 pub static mut CHILD_RETURNED_FROM_EXIT: bool = false;
+/// the wait status the WAIT4 contract stored last
+pub static mut LAST_WSTATUS: i32 = 0;
+pub fn last_wstatus() -> i32 {
+    unsafe { LAST_WSTATUS }
+}
 
 pub fn role_is_child() -> bool {
     unsafe { ROLE_CHILD }
@@ -636,6 +641,18 @@ pub unsafe fn dispatch(n: usize, args: [usize; 7], nargs: u8) -> usize {
         } else {
             ret = 4242; // a pid
         }
+    } else if mode & MODE_PROC != 0 && n == nr::WAIT4 {
+        // wait4 contract: an error, 0 (WNOHANG and nothing to report) or a pid; on a reaped child the
+        // kernel stores the wait status through the second argument
+        let v = choose(2);
+        #[cfg(kani)]
+        kani::assume(v <= 1 || is_err(v));
+        if v == 1 && args[1] != 0 {
+            let st = choose(4) as i32;
+            *(args[1] as *mut i32) = st;
+            LAST_WSTATUS = st;
+        }
+        ret = v;
     } else if mode & MODE_PROC != 0 && (n == nr::EXECVE || n == nr::EXECVEAT) {
         // success never returns to the caller's code
         let ok = choose(3) == 0;
